@@ -141,6 +141,14 @@ func genEntry(r *common.Rand) *jv {
 	case 3: // malformed auth
 		e.set("auth", jstr(common.Pick(r, []string{"!!!!", "dXNlcg==", "dXNlcjpwYXNz=", "dXNlcjpw YXNz", "dXNl\ncjpwYXNz", "dXNlcjpwYXN", "dQ", "====", "dXNlcjpwYXNz\r\n", "dXN=cjpw", "dXNlcjpwYQ==", "dXNlcjpwYR==", "dX-lcjpw"})))
 		return e
+	case 6: // field names that match only under Unicode case folding (U+017F long s, U+212A Kelvin sign) or ASCII case
+		e.set(common.Pick(r, []string{"pa\u017f\u017fword", "u\u017fername", "identityto\u212aen", "regi\u017ftryto\u212aen", "AUTH", "Identitytoken", "PASSWORD", "Username"}),
+			common.Pick(r, []*jv{jstr("folded"), jstr(b64("f:g")), jnull(), {k: jNum, s: "1"}}))
+		if r.Bool() {
+			e.set("auth", jstr(b64("u:p")))
+		}
+		run.Count("doc:folded-field-name")
+		return e
 	case 4: // wrong-typed field
 		e.set(common.Pick(r, authFields), genValue(r, 3))
 		e.set("auth", jstr(b64("u:p")))
@@ -449,6 +457,7 @@ func checkFloors() []string {
 	need("codec:decode", run.Scale(1000, 100000))
 	need("codec:json-string", run.Scale(2500, 75000))
 	need("doc:lone-surrogate", run.Scale(10, 500))
+	need("doc:folded-field-name", run.Scale(30, 1500))
 	need("put:invalid-utf8", run.Scale(10, 500))
 	if run.Dist["crash:unaligned"]*4 > run.Dist["crash:judged-kills"] {
 		bad = append(bad, fmt.Sprintf("crash:unaligned = %d: more than a quarter of the kills missed their system call", run.Dist["crash:unaligned"]))
